@@ -842,6 +842,9 @@ def run(ctx: Ctx) -> None:
         rep.bad("C05.R5", h.qname, desc, h.loc(), wit + ["e.g. a bare two's-complement encoding of 2**62 is the 8 bytes of the float 2.0"], "numeric", what="numeric encodings of different types can coincide")
     else:
         rep.ok("C05.R5", h.qname, desc, h.loc())
+    if ctx.report.prop == "C05":
+        from .common import share_rules as _share8
+        _share8(ctx, "C13", "C05.R19", ['C13.R15'], 'the inputs of the calling function are part of the call-site context hashed into a nested call: two different argument values of the caller never share the signature of the nested kept call (collision-free inputs)')
 
 
 PINNED_VALUES = [
